@@ -29,7 +29,135 @@ theorem references_are_rename_targets_minus_cursor (d : AnalyzedSource) (p : Pos
   have hne : ¬ ident.value = ['i', 'n', 't'] := by simpa using hint
   simp [rename, references, hc, hi, hx, hne, hids]
 
-/-- Every reported occurrence carries the searched name (no foreign identifier is renamed). -/
-theorem findVars_names (name : List Char) (s : Stmt) : True := trivial
+/-! ### every reported occurrence is spelled exactly like the searched name -/
+
+def AllNamed (name : List Char) (l : List Identifier) : Prop := ∀ i ∈ l, i.value = name
+
+theorem allNamed_nil (name : List Char) : AllNamed name [] := by intro i hi; cases hi
+
+theorem allNamed_append {name : List Char} {a b : List Identifier}
+    (ha : AllNamed name a) (hb : AllNamed name b) : AllNamed name (a ++ b) := by
+  intro i hi
+  rcases List.mem_append.mp hi with h | h
+  · exact ha i h
+  · exact hb i h
+
+theorem allNamed_shift {name : List Char} {l : List Identifier} (d : Nat) (h : AllNamed name l) :
+    AllNamed name (shiftIds l d) := by
+  intro i hi
+  simp only [shiftIds, List.mem_map] at hi
+  obtain ⟨j, hj, rfl⟩ := hi
+  exact h j hj
+
+theorem allNamed_single {name : List Char} (id : Identifier) :
+    AllNamed name (if id.value == name then [id] else []) := by
+  intro i hi
+  split at hi
+  · rename_i h
+    simp only [List.mem_singleton] at hi
+    subst hi
+    simpa using h
+  · cases hi
+
+theorem allNamed_flatMap {α} {name : List Char} (l : List α) (f : α → List Identifier)
+    (h : ∀ x ∈ l, AllNamed name (f x)) : AllNamed name (l.flatMap f) := by
+  intro i hi
+  simp only [List.mem_flatMap] at hi
+  obtain ⟨x, hx, hix⟩ := hi
+  exact h x hx i hix
+
+mutual
+  theorem varsInVar_named (name : List Char) : ∀ v : Var, AllNamed name (varsInVar name v)
+    | .named id => by simp only [varsInVar]; exact allNamed_single id
+    | .access a idx _ => by
+      simp only [varsInVar]
+      exact allNamed_append (varsInVar_named name a) (varsInOptExpr_named name idx)
+  theorem varsInExpr_named (name : List Char) : ∀ e : Expr, AllNamed name (varsInExpr name e)
+    | .var v => by simp only [varsInExpr]; exact varsInVar_named name v
+    | .binary _ l r _ => by
+      simp only [varsInExpr]
+      exact allNamed_append (varsInExpr_named name l) (varsInExpr_named name r)
+    | .bracketed e _ => by simp only [varsInExpr]; exact varsInExpr_named name e
+    | .unary _ e _ => by simp only [varsInExpr]; exact varsInExpr_named name e
+    | .intLit _ => by simp only [varsInExpr]; exact allNamed_nil name
+    | .error _ => by simp only [varsInExpr]; exact allNamed_nil name
+  theorem varsInOptExpr_named (name : List Char) : ∀ e : OptExpr, AllNamed name (varsInOptExpr name e)
+    | .none => by simp only [varsInOptExpr]; exact allNamed_nil name
+    | .some e o => by simp only [varsInOptExpr]; exact allNamed_shift o (varsInExpr_named name e)
+end
+
+theorem varsInOptRefExpr_named (name : List Char) (r : Option (Ref Expr)) :
+    AllNamed name (varsInOptRefExpr name r) := by
+  cases r with
+  | none => exact allNamed_nil name
+  | some r => exact allNamed_shift _ (varsInExpr_named name r.val)
+
+mutual
+  theorem varsInStmt_named (name : List Char) : ∀ s : Stmt, AllNamed name (varsInStmt name s)
+    | .assign a => by
+      simp only [varsInStmt]
+      exact allNamed_append (varsInVar_named name a.target) (varsInOptRefExpr_named name a.expr)
+    | .block ss _ => by simp only [varsInStmt]; exact varsInList_named name ss
+    | .call c => by
+      simp only [varsInStmt]
+      exact allNamed_flatMap _ _ (fun r _ => allNamed_shift _ (varsInExpr_named name r.val))
+    | .ifS c t e _ => by
+      simp only [varsInStmt]
+      exact allNamed_append (allNamed_append (varsInOptRefExpr_named name c) (varsInOpt_named name t))
+        (varsInOpt_named name e)
+    | .whileS c b _ => by
+      simp only [varsInStmt]
+      exact allNamed_append (varsInOptRefExpr_named name c) (varsInOpt_named name b)
+    | .empty _ => by simp only [varsInStmt]; exact allNamed_nil name
+    | .error _ => by simp only [varsInStmt]; exact allNamed_nil name
+  theorem varsInOpt_named (name : List Char) : ∀ s : OptStmt, AllNamed name (varsInOpt name s)
+    | .none => by simp only [varsInOpt]; exact allNamed_nil name
+    | .some s o => by simp only [varsInOpt]; exact allNamed_shift o (varsInStmt_named name s)
+  theorem varsInList_named (name : List Char) : ∀ s : StmtList, AllNamed name (varsInList name s)
+    | .nil => by simp only [varsInList]; exact allNamed_nil name
+    | .cons s o r => by
+      simp only [varsInList]
+      exact allNamed_append (allNamed_shift o (varsInStmt_named name s)) (varsInList_named name r)
+end
+
+/-- **No foreign identifier is ever reported or renamed** (variables): for every program, every
+    procedure and every name, each occurrence `find_vars` returns — parameter declarations, local
+    declarations and uses in the body, at any nesting depth — is spelled exactly like the searched
+    name (case-sensitive). -/
+theorem findVars_named (name procName : List Char) (p : Program) :
+    ∀ i ∈ findVars name procName p, i.value = name := by
+  unfold findVars
+  split
+  · rename_i gd _
+    split
+    · rename_i pd _
+      apply allNamed_shift
+      apply allNamed_append
+      · apply allNamed_append
+        · intro i hi
+          simp only [List.mem_filterMap] at hi
+          obtain ⟨prm, _, h⟩ := hi
+          split at h
+          · split at h
+            · rename_i n _ _ _ _ hn
+              simp only [Option.some.injEq] at h
+              subst h
+              simpa [Identifier.shift] using hn
+            · cases h
+          · cases h
+        · intro i hi
+          simp only [List.mem_filterMap] at hi
+          obtain ⟨v, _, h⟩ := hi
+          split at h
+          · split at h
+            · rename_i n _ _ _ hn
+              simp only [Option.some.injEq] at h
+              subst h
+              simpa [Identifier.shift] using hn
+            · cases h
+          · cases h
+      · exact allNamed_flatMap _ _ (fun s _ => allNamed_shift _ (varsInStmt_named name s.val))
+    · exact allNamed_nil name
+  · exact allNamed_nil name
 
 end Spl.C13
